@@ -6,6 +6,7 @@ rnd = sys.argv[3] if len(sys.argv) > 3 else ""
 p = [json.loads(l) for l in open('/verif/properties.jsonl') if json.loads(l)['id'] == pid][0]
 wt = "/tmp/wt-%s%s" % (pid, rnd and "-r"+rnd)
 out = "/tmp/mut-%s%s" % (pid, rnd and "-r"+rnd)
+hint = " Other reviewers have already tried changes in the most obvious functions named by the property; prefer less obvious sites: helper functions, type and format conversions, caches and memoised values, sort comparators, error and retry paths, rarely used options or fields, defaults, and interactions with what the Kubernetes API server or the peer does." if rnd == "3" else ""
 print(f"""You are helping to evaluate a test suite for the Go project metallb/metallb (a bare-metal Kubernetes load-balancer). You have your own scratch git worktree of the repository at {wt} . Work ONLY inside {wt} and {out} (create {out}). Do NOT read or touch /verif or /repo, and do not use the network (there is none).
 
 Here is a semantic property the code base is supposed to satisfy:
@@ -15,7 +16,7 @@ STATEMENT: {p['statement']}
 QUANTIFIED OVER: {p['quantifier']['text']}
 Relevant source files (relative to the repository root): {', '.join(p['anchors']['files'])}
 
-Your task: produce {n} DIFFERENT, realistic changes (mutations / plausible bugs, the kind a developer could introduce in a refactoring or an 'optimisation') to the NON-TEST source code of metallb that each BREAK this property, while the code still compiles and the existing unit tests of the touched packages still pass. Prefer changes that need something specific to manifest - an unusual input, a multi-step sequence of operations, a particular interleaving or fault point, or two cooperating sites that each look fine alone - NOT changes that ordinary use would expose at once, and not changes that simply delete a whole feature. Each change should be small (a few lines).
+Your task: produce {n} DIFFERENT, realistic changes (mutations / plausible bugs, the kind a developer could introduce in a refactoring or an 'optimisation') to the NON-TEST source code of metallb that each BREAK this property, while the code still compiles and the existing unit tests of the touched packages still pass. Prefer changes that need something specific to manifest - an unusual input, a multi-step sequence of operations, a particular interleaving or fault point, or two cooperating sites that each look fine alone - NOT changes that ordinary use would expose at once, and not changes that simply delete a whole feature. Each change should be small (a few lines).{hint}
 
 For each change k (k = 1..{n}) deliver in {out}/k/ :
   - patch.diff : `git diff` of the change against the worktree HEAD (only non-test source files of metallb);
